@@ -98,6 +98,20 @@ fn main() {
         }),
     );
 
+    if let Some(n) = beh.get("pre_out_bytes").and_then(|x| x.as_u64()).filter(|n| *n > 0) {
+        // chatty start: lines of 100 bytes until n bytes are out (blocks if nobody reads the pipe)
+        use std::io::Write;
+        let line = format!("{:-<99}\n", "early output ");
+        let mut out = std::io::stdout().lock();
+        let mut written = 0u64;
+        while written < n {
+            if out.write_all(line.as_bytes()).is_err() {
+                break;
+            }
+            written += line.len() as u64;
+        }
+        let _ = out.flush();
+    }
     let mut exit_code = beh.get("exit").and_then(|x| x.as_i64()).unwrap_or(0) as i32;
     let mut barrier_timeout = false;
     let mut write_failed = false;
